@@ -253,6 +253,11 @@ def run_all(targets: List[str], jobs: int) -> List[Dict[str, Any]]:
 def finish(a: Dict[str, Any]) -> Dict[str, Any]:
     a['vacuous'] = (not a.get('assumed')) and not a.get('live') and not a['unsupported'] and not a['errors'] \
         and not a['failures']
+    # reachability guard behind the contracts used on the way: a function whose normal return is unreachable under its
+    # own precondition and its callees' contracts has (some) contradictory contract - everything after would be proved
+    # vacuously.  (never_returns = True for the rare function that only raises.)
+    a['no_return'] = (not a.get('assumed')) and a.get('live') and not a.get('covers', {}).get('return') \
+        and not a['unsupported'] and not a['errors'] and not a['failures'] and not a.get('never_returns')
     return a
 
 
@@ -407,6 +412,8 @@ def report(pid: str, a, results: List[Dict[str, Any]], seed: int, wall: float, c
             errors.append(f"{r['function']}: {e}")
         if r.get('vacuous'):
             errors.append(f"{r['function']}: vacuous precondition (no feasible path)")
+        if r.get('no_return'):
+            errors.append(f"{r['function']}: no feasible path returns normally (contradictory contracts on the way?)")
         cross_checked += r['cross']['checked']
         cross_agree += r['cross']['agree']
         for m in r['cross']['mismatch']:
